@@ -18,15 +18,20 @@ BOUNDS = {
                   opacity='symbolic per world cell', draws='stochastic_raytracing: every draw a symbolic real in [0,1); views of at most 6 cells (each view cell forks on its draw)'),
     'thorough': dict(worlds='small worlds up to 2x3 with every area of the box; 1x4, 3x2, 3x4, 4x4 with 13 selected areas up to 5x5', views='see worlds', poses='every cell x 4 headings', opacity='symbolic', draws='symbolic'),
 }
-OUTSIDE = 'the shipped 7x7 view on 13x13 worlds (the slice/rotate code is size-generic, but that is an argument, not a verdict)'
+OUTSIDE = 'the shipped 7x7 view is covered on an 8x9 world with three symbolic occluders only; 13x13 worlds and arbitrary occluder patterns under a 7x7 view are outside'
 ASSUMPTIONS = ['documented preconditions of partially_occluded (agent on the bottom row of the view) and of the ray functions (agent inside the view)']
 STUBS = ['Tok cells (unregistered GridObject subclass, identity equality, symbolic blocks_vision)', 'SymRng']
 TIME_LIMIT = {'quick': 300, 'thorough': 1800}
 
 
-def mk(fname, H, W, box=None, fixed=None, with_held=True):
+def mk(fname, H, W, box=None, fixed=None, with_held=True, symbolic_cells=None):
     def h(sx):
         toks = make_world(sx, H, W)
+        if symbolic_cells is not None:  # large worlds: only these cells keep a symbolic opacity, the rest is transparent
+            for y in range(H):
+                for x in range(W):
+                    if (y, x) not in symbolic_cells:
+                        toks[y][x].force(False)
         pose = sym_pose(sx, H, W)
         area = sym_area(sx, box, **needs(fname)) if fixed is None else fixed_area(sx, fixed, fname)
         held = Tok('held') if with_held else None
@@ -80,4 +85,10 @@ def obligations(tier):
                 if fname == 'stochastic_raytracing' and (a[1] - a[0] + 1) * (a[3] - a[2] + 1) > (6 if q else 9):
                     continue
                 obs.append(Obligation(f'{fname}-{H}x{W}-area{a}', mk(fname, H, W, fixed=a), dict(function=fname, H=H, W=W, area=list(a))))
+    # the shipped 7x7 view ((-6,0),(-3,3)) on a non-square 8x9 world: every pose, three cells with symbolic opacity
+    for fname in FUNCS:
+        if fname == 'stochastic_raytracing':
+            continue  # 49 draws
+        obs.append(Obligation(f'{fname}-8x9-shipped-view', mk(fname, 8, 9, fixed=(-6, 0, -3, 3), symbolic_cells={(3, 4), (4, 4), (4, 3)}),
+                              dict(function=fname, H=8, W=9, area=[-6, 0, -3, 3], symbolic_opacity='3 cells')))
     return obs
